@@ -28,6 +28,7 @@ func checkC11(p *Prog, c *Check) {
 	c11Started(p, c)
 	c11Nonce(p, c, "C11-R6")
 	uniqueAddrsRule(p, c, "C11-R7")
+	linearSearchRule(p, c, "C11-R8", "keyper/shutterevents.BatchConfig.KeyperIndex", "$p0.Keypers")
 }
 
 func c11Config(p *Prog, c *Check) {
@@ -1129,8 +1130,38 @@ func c13Height(p *Prog, c *Check) {
 		fi := p.Info(w.Fn)
 		ok := shortFn(w.Fn) == "(*app.ShutterApp).EndBlock" && ParsePat("$req.Height").Match(fi.T(w.Val), Binds{"req": fi.T(w.Fn.Params[1])})
 		c.Result(ok, rule, "LastBlockHeight-write@"+shortFn(w.Fn), p.siteOf(w.Instr), shortFn(w.Fn), "LastBlockHeight = "+fi.T(w.Val).s, "the persisted height is written somewhere other than EndBlock from the request height: a state file saved in Commit would report a height that does not match its contents", "EndBlock: req.Height")
+		// ... on every path of EndBlock (an early exit before the write leaves the file claiming an older height than its contents)
+		if ok {
+			all := true
+			for _, r := range returnsOf(w.Fn) {
+				if !instrDominates(w.Instr, r) {
+					all = false
+				}
+			}
+			c.Result(all, rule, "LastBlockHeight-every-path@"+shortFn(w.Fn), p.siteOf(w.Instr), shortFn(w.Fn), "LastBlockHeight = req.Height", "EndBlock can return without recording the block's height (e.g. an early exit): the saved state would claim an older height than the blocks it contains and replay them after a restart", "the write dominates every return of EndBlock")
+		}
 	}
 	c.Floor(rule, n, 1)
+	// the state file is written only at block boundaries: PersistToDisk is reachable from the ABCI
+	// entry points through Commit only (a save in the middle of DeliverTx captures half a block under
+	// the previous block's height)
+	if pd, err := p.Func("app.ShutterApp.PersistToDisk"); c.Must(err) {
+		roots := abciRoots(p, c)
+		cmf, _ := p.Func("app.ShutterApp.Commit")
+		var others []*ssa.Function
+		for _, r := range roots {
+			if r != cmf {
+				others = append(others, r)
+			}
+		}
+		reach := false
+		for _, f := range p.CG().Reachable(others, nil) {
+			if f == pd {
+				reach = true
+			}
+		}
+		c.Result(!reach && cmf != nil, rule, "PersistToDisk:only-from-Commit", p.Rel(pd.Pos()), shortFn(pd), "callers of PersistToDisk", "the state file can be written from an ABCI entry point other than Commit, i.e. in the middle of a block", "reachable from BeginBlock/DeliverTx/EndBlock/InitChain/…: no")
+	}
 	// Commit persists after EndBlock's write by ABCI order; within Commit nothing writes state after maybePersistToDisk
 	cm, err := p.Func("app.ShutterApp.Commit")
 	if c.Must(err) {
